@@ -2,6 +2,7 @@ import SV.Common
 import SV.Misc.Adapter
 import SV.Misc.Unit
 import SV.Misc.Fifo
+import SV.Misc.FifoRingCache
 import SV.Misc.TimeCache
 import SV.Misc.TimeCacheMore
 open SV
@@ -114,13 +115,15 @@ def showInv (l : List (String × Bytes × Bytes)) : String :=
   let ids := l.map (fun x => x.1 ++ ":" ++ toHex x.2.1 ++ ":" ++ toHex x.2.2)
   "h=[" ++ ",".intercalate (ids.toArray.qsort (· < ·)).toList ++ "]"
 
-def fDump (c : Fifo.Cache) : String :=
+/-- the driver runs the FAITHFUL ring model (SV.Misc.FifoRingCache: slot arrays with `idxAdd`, transcribed from
+    concurrent-map) — by `crun_init` it refines the age-ordered model the C20 theorems are stated on -/
+def fDump (c : Fifo.RCache) : String :=
   let ks := if c.n = 1 then (c.keysPerShard.flatten) else sortBytes c.keysPerShard.flatten
   s!"keys={hexList ks} len={c.len}"
 
-def fStep (c : Fifo.Cache) (toks : List String) : Fifo.Cache × String :=
+def fStep (c : Fifo.RCache) (toks : List String) : Fifo.RCache × String :=
   match toks with
-  | "begin" :: rest => (Fifo.Cache.init (natOf (kvGet rest "size")) (natOf (kvGet rest "shards")), "ok")
+  | "begin" :: rest => (Fifo.RCache.init (natOf (kvGet rest "size")) (natOf (kvGet rest "shards")), "ok")
   | ["put", k, v] =>
     match parseHex k, parseHex v with
     | some k, some v => let (c, inv) := c.put k v; (c, "| " ++ fDump c ++ " | " ++ showInv inv)
